@@ -998,11 +998,13 @@ pub fn run(args: &Args) -> i32 {
             }),
         );
         let mut vec1: BTreeMap<&'static str, (Option<bool>, bool)> = BTreeMap::new();
+        let mut ext1s: BTreeMap<&'static str, Option<String>> = BTreeMap::new();
         for c in &s.cands {
             let wit = json!({"context": ci, "candidate": c.name, "tx": vbase::hex(c.tx.hash().as_slice()), "commit_position": s.tg.rc.get(&s.tip).number + 1, "epoch_of_tip": format!("{}", s.tg.rc.get(&s.tip).block.epoch())});
             let v1 = verdicts(&s, &n1, c, false);
             let (pool, accepted, ext1) = (v1.pool, v1.accepted, v1.ext.clone());
             vec1.insert(c.name, (pool, accepted));
+            ext1s.insert(c.name, ext1.clone());
             if v1.passed_tx_rules && !c.valid {
                 c04.violation(
                     &format!("block_path.invalid_tx_passed_every_tx_rule@{}", c.name),
@@ -1124,6 +1126,74 @@ pub fn run(args: &Args) -> i32 {
                 }
             }
         }
+        // C14: a result obtained with script execution switched off must not be served from the
+        // verification cache once scripts are verified again. A node P synchronises to the context
+        // with one assume-valid target T = probe block X1b (so every block before T is imported
+        // with Switch::DISABLE_SCRIPT). P imports probe block X1 = [cellbase, pre.., tx] (a sibling
+        // of X1b, not an ancestor of the target: nothing vouches for it) -- scripts skipped; P is
+        // truncated back to the context tip; P imports X1b = [cellbase', pre.., tx]: the target is
+        // reached, full verification is on for X1b itself. A twin P' goes through the same events
+        // with its verification cache cleared before X1b. Verdict and recorded cycles of X1b must be
+        // the same on P, on P' and on the directly synchronised node.
+        {
+            let chosen = ["valid.secp256k1_signed", "script.always_failure_lock", "script.secp256k1_corrupted_signature", "script.always_failure_output_type", "valid.since_abs_block_at_threshold"];
+            let which: Vec<&Cand> = s.cands.iter().filter(|c| chosen.contains(&c.name) && c.pre.is_empty()).collect();
+            // two per context (rotating), both twins each
+            for (k, c) in which.iter().enumerate() {
+                if (k as u64 + ci) % 2 != 0 && which.len() > 2 {
+                    continue;
+                }
+                let Some((_, accepted1)) = vec1.get(c.name).copied() else { continue };
+                let ext1 = ext1s.get(c.name).cloned().flatten();
+                let (x1, _) = block_with(&s, std::slice::from_ref(&c.tx));
+                let (x1b, _) = block_with(&s, std::slice::from_ref(&c.tx));
+                let target: ckb_types::H256 = x1b.hash().unpack();
+                let mut outcome: Vec<(bool, bool, Option<String>)> = vec![]; // (x1 accepted, x1b accepted, ext of x1b)
+                for clear in [false, true] {
+                    let Ok(p) = boot_synced_seq(&s, &direct, Some(vec![target.clone()])) else { break };
+                    let r1 = p.chain().blocking_process_block(Arc::new(x1.clone()));
+                    let a1 = matches!(r1, Ok(true)) && h(&p.tip_hash()) == h(&x1.hash());
+                    if a1 {
+                        wait_pool_tip(&p, &h(&p.tip_hash()));
+                        let _ = p.chain().truncate(packed::Byte32::from_slice(&s.tip).unwrap());
+                        let _ = p.shared.tx_pool_controller().clear_pool(p.shared.cloned_snapshot());
+                        wait_pool_tip(&p, &s.tip);
+                    }
+                    if clear {
+                        clear_verify_cache(&p);
+                    }
+                    let r2 = p.chain().blocking_process_block(Arc::new(x1b.clone()));
+                    let a2 = matches!(r2, Ok(true)) && h(&p.tip_hash()) == h(&x1b.hash());
+                    let e2 = if a2 { p.shared.store().get_block_ext(&x1b.hash()).map(|e| format!("fees={:?} cycles={:?} sizes={:?}", e.txs_fees, e.cycles, e.txs_sizes)) } else { None };
+                    outcome.push((a1, a2, e2));
+                }
+                if outcome.len() < 2 {
+                    c14.count("script_skip_episodes_not_booted");
+                    continue;
+                }
+                c14.eval();
+                c14.count("script_skip_then_full_verification_events");
+                if outcome[0].0 {
+                    c14.count("script_skip_probe_imported_without_scripts");
+                }
+                c14.distinct_str(&format!("{}|script_skip", c.name));
+                let wit = json!({"context": ci, "candidate": c.name, "tx": vbase::hex(c.tx.hash().as_slice()), "x1": vbase::hex(x1.hash().as_slice()), "x1b_assume_valid_target": vbase::hex(x1b.hash().as_slice()),
+                    "warm (x1 imported, x1b attached, ext)": format!("{:?}", outcome[0]), "cache cleared before x1b": format!("{:?}", outcome[1]), "directly synchronised node": format!("{:?}", (accepted1, &ext1))});
+                if outcome[0].1 != outcome[1].1 || outcome[0].1 != accepted1 {
+                    c14.violation(
+                        &format!("script_skipped_result_served_from_cache.verdict@{}", c.name),
+                        format!("`{}` in the assume-valid target block (verified with scripts on): attached={} on the node that had imported a sibling block with the same transaction while scripts were off, attached={} with the verification cache cleared in between, attached={} on a directly synchronised node", c.name, outcome[0].1, outcome[1].1, accepted1),
+                        wit.clone(),
+                    );
+                } else if outcome[0].1 && (outcome[0].2 != outcome[1].2 || (ext1.is_some() && outcome[0].2 != ext1)) {
+                    c14.violation(
+                        &format!("script_skipped_result_served_from_cache.recorded_cycles@{}", c.name),
+                        format!("`{}`: block ext of the assume-valid target block: {:?} after the sibling was imported with scripts off, {:?} with the cache cleared in between, {:?} for the same body on a directly synchronised node", c.name, outcome[0].2, outcome[1].2, ext1),
+                        wit.clone(),
+                    );
+                }
+            }
+        }
         // C14: commit-position shift. Every candidate has been verified (and cached) on the warm
         // node as valid for position n; the same transactions offered one block earlier (position
         // n-1, still inside the proposal window) do not meet their since / maturity condition and
@@ -1181,6 +1251,8 @@ pub fn run(args: &Args) -> i32 {
     c04.require("history_independence_checks", 10);
     c14.require("events_compared", 10);
     c14.require("answer_vectors_compared", 1);
+    c14.require("script_skip_then_full_verification_events", 2);
+    c14.require("script_skip_probe_imported_without_scripts", 1);
     if n_ctx >= 4 {
         c14.require("contexts_with_system_cell_cache", 1);
         c14.require("contexts_without_system_cell_cache", 1);
